@@ -93,7 +93,7 @@ Definition t_methods : table := [
   ("T.Name", [
     IAcc F_T_tb false;
     ICall "tb.Name"]);
-  (* engine.go:694 *)
+  (* engine.go:689 *)
   ("T.Log", [
     IAcc F_T_rawLog false;
     IAcc F_T_rawLog false;
@@ -103,7 +103,7 @@ Definition t_methods : table := [
     ICall "t.tb.Helper";
     IAcc F_T_tb false;
     ICall "t.tb.Log"]);
-  (* engine.go:685 *)
+  (* engine.go:680 *)
   ("T.Logf", [
     IAcc F_T_rawLog false;
     IAcc F_T_rawLog false;
@@ -113,7 +113,7 @@ Definition t_methods : table := [
     ICall "t.tb.Helper";
     IAcc F_T_tb false;
     ICall "t.tb.Logf"]);
-  (* engine.go:742 *)
+  (* engine.go:737 *)
   ("T.Error", [
     IAcc F_T_tbLog false;
     IAcc F_T_tb false;
@@ -133,7 +133,7 @@ Definition t_methods : table := [
       IAcc F_T_parent false;
       ICall "t.parent.fail";
       IAcc F_T_failed false]]);
-  (* engine.go:733 *)
+  (* engine.go:728 *)
   ("T.Errorf", [
     IAcc F_T_tbLog false;
     IAcc F_T_tb false;
@@ -153,7 +153,7 @@ Definition t_methods : table := [
       IAcc F_T_parent false;
       ICall "t.parent.fail";
       IAcc F_T_failed false]]);
-  (* engine.go:772 *)
+  (* engine.go:767 *)
   ("T.Fail", [
     ILocked MU_T_mu MW [
       IAcc F_T_failed true;
@@ -161,11 +161,11 @@ Definition t_methods : table := [
       IAcc F_T_parent false;
       ICall "t.parent.fail";
       IAcc F_T_failed false]]);
-  (* engine.go:776 *)
+  (* engine.go:771 *)
   ("T.Failed", [
     ILocked MU_T_mu MR [
       IAcc F_T_failed false]]);
-  (* engine.go:574 *)
+  (* engine.go:569 *)
   ("T.Context", [
     ILocked MU_T_mu MR [
       IAcc F_T_ctx false];
@@ -182,12 +182,12 @@ Definition t_methods : table := [
       ICall "context.WithCancel";
       IAcc F_T_ctx true;
       IAcc F_T_cancelCtx true]]);
-  (* engine.go:633 *)
+  (* engine.go:628 *)
   ("T.Cleanup", [
     ILocked MU_T_mu MW [
       IAcc F_T_cleanups false;
       IAcc F_T_cleanups true]]);
-  (* engine.go:713 *)
+  (* engine.go:708 *)
   ("T.Skip", [
     IAcc F_T_tbLog false;
     IAcc F_T_tb false;
@@ -201,7 +201,7 @@ Definition t_methods : table := [
     IAcc F_T_tb false;
     ICall "t.tb.Log";
     ICall "fmt.Sprint"]);
-  (* engine.go:704 *)
+  (* engine.go:699 *)
   ("T.Skipf", [
     IAcc F_T_tbLog false;
     IAcc F_T_tb false;
@@ -215,9 +215,9 @@ Definition t_methods : table := [
     IAcc F_T_tb false;
     ICall "t.tb.Logf";
     ICall "fmt.Sprintf"]);
-  (* engine.go:728 *)
+  (* engine.go:723 *)
   ("T.SkipNow", []);
-  (* engine.go:760 *)
+  (* engine.go:755 *)
   ("T.Fatal", [
     IAcc F_T_tbLog false;
     IAcc F_T_tb false;
@@ -237,7 +237,7 @@ Definition t_methods : table := [
       IAcc F_T_parent false;
       ICall "t.parent.fail";
       IAcc F_T_failed false]]);
-  (* engine.go:751 *)
+  (* engine.go:746 *)
   ("T.Fatalf", [
     IAcc F_T_tbLog false;
     IAcc F_T_tb false;
@@ -257,7 +257,7 @@ Definition t_methods : table := [
       IAcc F_T_parent false;
       ICall "t.parent.fail";
       IAcc F_T_failed false]]);
-  (* engine.go:768 *)
+  (* engine.go:763 *)
   ("T.FailNow", [
     ILocked MU_T_mu MW [
       IAcc F_T_failed true;
@@ -265,7 +265,7 @@ Definition t_methods : table := [
       IAcc F_T_parent false;
       ICall "t.parent.fail";
       IAcc F_T_failed false]]);
-  (* engine.go:787 *)
+  (* engine.go:782 *)
   ("T.fail", [
     ILocked MU_T_mu MW [
       IAcc F_T_failed true;
@@ -273,17 +273,17 @@ Definition t_methods : table := [
       IAcc F_T_parent false;
       ICall "t.parent.fail";
       IAcc F_T_failed false]]);
-  (* engine.go:811 *)
+  (* engine.go:806 *)
   ("T.failOnError", [
     ILocked MU_T_mu MR [
       IAcc F_T_failed false;
       IAcc F_T_failed false]]);
-  (* engine.go:800 *)
+  (* engine.go:795 *)
   ("T.failedError", [
     ILocked MU_T_mu MR [
       IAcc F_T_failed false;
       IAcc F_T_failed false]]);
-  (* engine.go:642 *)
+  (* engine.go:637 *)
   ("T.cleanup", [
     IAtomic F_T_cleaning true;
     ILocked MU_T_mu MW [
@@ -303,7 +303,7 @@ Definition t_methods : table := [
       IAcc F_T_cleanups false];
     ICall "T.cleanup (recursive)";
     IAtomic F_T_cleaning true]);
-  (* engine.go:559 *)
+  (* engine.go:554 *)
   ("T.shouldLog", [
     IAcc F_T_rawLog false;
     IAcc F_T_tbLog false])
